@@ -104,11 +104,8 @@ impl TlsHandshaker {
         let config = self.client_config()?;
         let mut session = ClientConnection::new(config, domain)?;
 
-        while let Err(err) = session.complete_io(&mut stream) {
-            if err.kind() != io::ErrorKind::WouldBlock || !session.is_handshaking() {
-                return Err(err.into());
-            }
-        }
+        // The streams handed in are blocking: WouldBlock is the read timeout expiring in mid-handshake.
+        session.complete_io(&mut stream)?;
 
         Ok(TlsStream {
             inner: StreamOwned::new(session, stream),
